@@ -212,6 +212,8 @@ fn span_of(st: &MStack, l: usize, size: (i64, i64)) -> i64 {
 thread_local! {
     /// generator switch of the `compile-unrealisable-cuts` sub-check
     static LOOSE_CUTS: std::cell::Cell<bool> = const { std::cell::Cell::new(false) };
+    /// ... and whether cut requests may also fall on the crossing of an assignment (and vice versa)
+    static LOOSE_OVER_ASSIGN: std::cell::Cell<bool> = const { std::cell::Cell::new(false) };
 }
 fn gen_cell(src: &mut Src, st: &MStack, name: &str, lower: &[MCellT], max_size: i64, bad_size: bool) -> MCellT {
     // leaf cells are, one time in six, cells that use no metal layer at all (they block nothing)
@@ -301,7 +303,7 @@ fn gen_cell(src: &mut Src, st: &MStack, name: &str, lower: &[MCellT], max_size: 
             if under_block(l, along_l, kl, reach) || under_block(cl, along_c, kc, reach) {
                 continue;
             }
-            if used.iter().any(|u| (u.0 == l && u.1 == t && along_l >= u.2 - reach && along_l <= u.3 + reach) || (u.0 == cl && u.1 == c && along_c >= u.2 - reach && along_c <= u.3 + reach)) {
+            if !LOOSE_OVER_ASSIGN.with(|c| c.get()) && used.iter().any(|u| (u.0 == l && u.1 == t && along_l >= u.2 - reach && along_l <= u.3 + reach) || (u.0 == cl && u.1 == c && along_c >= u.2 - reach && along_c <= u.3 + reach)) {
                 continue;
             }
             if along_l <= 0 || along_l >= span_of(st, l, size) || along_c <= 0 || along_c >= span_of(st, cl, size) {
@@ -323,7 +325,8 @@ fn gen_cell(src: &mut Src, st: &MStack, name: &str, lower: &[MCellT], max_size: 
             }
             // loose mode: cut requests may run over the outline edge and over other cuts (never over the
             // crossing of an assignment): the compiler must refuse them or realise them, not ignore them
-            if used.iter().any(|u| u.0 == l && u.1 == t && lo <= u.3 + reach && hi >= u.2 - reach && !(loose && u.2 != u.3)) {
+            let over_assign = LOOSE_OVER_ASSIGN.with(|c| c.get());
+            if used.iter().any(|u| u.0 == l && u.1 == t && lo <= u.3 + reach && hi >= u.2 - reach && !(loose && (u.2 != u.3 || over_assign))) {
                 continue;
             }
             used.push((l, t, lo, hi));
@@ -685,8 +688,10 @@ fn main_case(src: &mut Src, ctx: &mut Ctx) -> Result<(), String> {
 }
 fn gen_loose(src: &mut Src) -> MLibT {
     LOOSE_CUTS.with(|c| c.set(true));
+    LOOSE_OVER_ASSIGN.with(|c| c.set(src.bool()));
     let m = gen_tlib(src, false);
     LOOSE_CUTS.with(|c| c.set(false));
+    LOOSE_OVER_ASSIGN.with(|c| c.set(false));
     m
 }
 /// Cut requests that may be impossible (over the outline edge, over another cut): an error, or the
